@@ -8,7 +8,7 @@ from pyvc.spec import ContractSet
 
 HOME = os.environ.get('VERIF_HOME', os.path.dirname(os.path.dirname(os.path.abspath(__file__))))
 
-_MODULES = ['ghosts', 'merkle', 'externals', 'datatypes', 'consensus', 'coinstate', 'manager', 'network', 'mining', 'pow', 'local_peer', 'framing', 'codec', 'lemmas']
+_MODULES = ['ghosts', 'merkle', 'wallet', 'externals', 'datatypes', 'consensus', 'coinstate', 'manager', 'network', 'mining', 'pow', 'local_peer', 'framing', 'codec', 'lemmas']
 _cset = None
 
 
@@ -50,6 +50,12 @@ def _tx_key(eng, x, st):
 
 # level / notes per property; functions and lemmas come from the props tags on the contracts
 PROPS = {
+    'C14': dict(level='proof', native=['native.c14'],
+                explanation="contracts of create_spend_transaction and sign_transaction verified from source (nested loops over "
+                            "the wallet's keys and their unspent outputs with invariants; set update; external signing stub): "
+                            "exact recipient output, exact change or none, inputs unspent / owned / not used before, record of "
+                            "used outputs = old + inputs, unchanged on every failure. That the result passes the node's own "
+                            "validation, and sequences of spends, are exercised by a bounded run (reported under `bounded`)"),
     'C18': dict(level='proof', native=['native.c18'],
                 explanation="post-condition of validate_block_in_coinstate verified from source: at or below the horizon, at "
                             "a checkpointed height, it returns only for the checkpointed id (table pinned as consensus "
@@ -186,6 +192,7 @@ PARALLEL = {
     'skepticoin.networking.manager.ChainManager.add_transaction_to_pool': 3,
     'C02.apply-block-total': 3,
     'skepticoin.networking.remote_peer.MessageReceiver.receive': 12,
+    'skepticoin.wallet.create_spend_transaction': 10,
 }
 
 
